@@ -115,7 +115,7 @@ func TMerc(this *SR) (forward, inverse Transformer, err error) {
 				lat = phi - (n*tan_phi*ds/r)*(0.5-ds/24*(5+3*t+10*c-4*cs-9*this.Ep2-ds/30*(61+90*t+298*c+45*ts-252*this.Ep2-3*cs)))
 				lon = adjust_lon(this.Long0 + (d * (1 - ds/6*(1+2*t+c-ds/20*(5-2*c+28*t-3*cs+8*this.Ep2+24*ts))) / cos_phi))
 			} else {
-				lat = halfPi * sign(y)
+				lat = halfPi * sign(phi)
 				lon = this.Long0
 			}
 		}
